@@ -88,7 +88,7 @@ CONC_ASSUMPTIONS = [
 ]
 
 LIN = _conc("lin", 12, 16, {"histories": 700}, {"histories": 25000})
-REUSE = _conc("reuse", 8, 16, {"runs": 4}, {"runs": 120})
+REUSE = _conc("reuse", 8, 16, {"runs": 10}, {"runs": 120})
 MEMLIMIT = _conc("memlimit", 4, 8, {"runs": 12}, {"runs": 300})
 SCAN = _conc("scan", 4, 8, {"runs": 6}, {"runs": 150})
 
@@ -129,7 +129,7 @@ BUILD_CLI = {"cmd": ["cargo", "build", "--offline", "--manifest-path", "/repo/Ca
 def _migrate(tier):
     args = {"cli": REPO_BIN_DIR + "/debug/feox-migrate", "threads": 12}
     if tier == "quick":
-        return [{"engine": "migrate", "pre": [BUILD_CLI], "args": dict(args, sources=240)}]
+        return [{"engine": "migrate", "pre": [BUILD_CLI], "args": dict(args, sources=360)}]
     return [{"engine": "migrate", "pre": [BUILD_CLI], "shards": 2, "args": dict(args, sources=6000, threads=8)}]
 
 
@@ -182,7 +182,7 @@ PLAN = {
             "assumptions": ["the invariant is asserted only at quiescent points (flush acknowledged, caller threads paused); transient reservations mid-flight are legitimate and not asserted", "OutOfSpace caused by fragmentation on a >90 % full device is not a violation; the drain epilogue checks that an emptied device accepts the original fill again"] + CRASH_ASSUMPTIONS[:2]},
     "C09": {"level": "fault_enumeration", "engines": _fault, "min_nontrivial": 100,
             "assumptions": CRASH_ASSUMPTIONS + ["faults are injected on the synchronous I/O path (hook H2 disables io_uring) and, in a second pass, on the io_uring path (SQEs completed with EBADF, io_uring_enter failing with EINTR/EIO), with one flush worker so the I/O calls of a workload can be numbered; each plan runs in its own process because the store keeps a process-wide registry of poisoned files", "read failures are outside the property"]},
-    "C18": {"level": "exploration", "engines": _live("live", 60, 3600), "min_nontrivial": 20,
+    "C18": {"level": "exploration", "engines": _live("live", 96, 3600), "min_nontrivial": 20,
             "assumptions": ["termination is judged by bounded progress: every scenario must finish; a watchdog expiry counts as a violation only with a stall signature (no thread consumed CPU for 2 s, none runnable), otherwise it is inconclusive", "every other engine's child/worker runs under the driver's watchdog as well"]},
     "C19": {"level": "exploration", "engines": _live("wb", 56, 1680), "min_nontrivial": 12,
             "assumptions": ["'bounded' is judged logically (pending-work accessor reaches zero, durable prefix equals the accepted state); wall-clock only fails a run after 10 s without drain AND 5 s without device activity; drain times are reported as a distribution"] + CRASH_ASSUMPTIONS[:2]},
@@ -192,7 +192,7 @@ PLAN = {
     "C03": {"level": "fault_enumeration", "engines": _both(_crash("all", 14, 240), _crash_split), "min_nontrivial": 200, "assumptions": CRASH_ASSUMPTIONS},
     "C04": {"level": "fault_enumeration", "engines": _both(_crash("idem", 4, 60, cuts_q=50, cuts_t=120), _sweep("bigretire", 2, 2, 24, 8)), "min_nontrivial": 50, "assumptions": CRASH_ASSUMPTIONS},
     "C01": {"level": "exploration", "engines": _model("all"), "min_nontrivial": 500, "assumptions": MODEL_ASSUMPTIONS},
-    "C10": {"level": "exploration", "engines": _model("layout", quick_programs=24, thorough_programs=400), "min_nontrivial": 300,
+    "C10": {"level": "exploration", "engines": _model("layout", quick_programs=36, thorough_programs=400), "min_nontrivial": 300,
             "assumptions": MODEL_ASSUMPTIONS + ["independent codec M6 (harness/src/indep.rs) is the reader; it shares no code with feoxdb"]},
     "C11": {"level": "exploration", "engines": _both(_model("ttl"), _sweep("sweeper", 6, 3, 60, 8), _sweep("ttlcrash", 8, 8, 160, 16), _sweep("bigretire", 2, 2, 24, 8), _sweep("midread", 6, 3, 60, 8)), "min_nontrivial": 300,
             "assumptions": MODEL_ASSUMPTIONS + CONC_ASSUMPTIONS[:2] + ["sweeper runs use the process-wide virtual clock offset (hook H6) for jumps; bounds around calls are taken from that clock before and after each call"]},
